@@ -637,10 +637,17 @@ impl Python {
                 RustEnumVariant::AnonymousStruct { shared, .. } => shared.id.renamed.clone(),
             })
             .map(|name| (name.to_case(Case::Snake).to_uppercase(), name))
-            // the member name is derived from the wire name, which may start with a digit ("2fa")
-            .map(|(key, name)| match key.chars().next() {
-                Some(c) if c.is_ascii_digit() => (format!("_{key}"), name),
-                _ => (key, name),
+            // the member name is derived from the wire name, which need not be an identifier
+            // ("2fa", "a/b", ""): keep letters, digits and underscores, never start with a digit
+            .map(|(key, name)| {
+                let key: String = key
+                    .chars()
+                    .map(|c| if c.is_alphanumeric() || c == '_' { c } else { '_' })
+                    .collect();
+                match key.chars().next() {
+                    Some(c) if !c.is_ascii_digit() => (key, name),
+                    _ => (format!("_{key}"), name),
+                }
             })
             .collect::<Vec<(String, String)>>();
         let enum_type_class_name = format!("{}Types", shared.id.renamed);
@@ -653,7 +660,8 @@ impl Python {
             all_enum_variants_name
                 .iter()
                 .map(|(type_key_name, type_string)| format!(
-                    "    {type_key_name} = \"{type_string}\""
+                    "    {type_key_name} = \"{}\"",
+                    type_string.replace('\\', "\\\\").replace('"', "\\\"")
                 ))
                 .collect::<Vec<String>>()
                 .join("\n")
